@@ -12,10 +12,8 @@ From V Require Model.Date Model.Time.
 Import ListNotations.
 Open Scope Z_scope.
 
-Module D := V.Model.Date.
-Module T := V.Model.Time.
 
-Record ndt := mk_ndt { nd_date : Z; nd_time : T.ntime }.
+Record ndt := mk_ndt { nd_date : Z; nd_time : Time.ntime }.
 Record dtz := mk_dtz { dz_utc : ndt; dz_off : Z }.
 
 (** [MappedLocalTime<X>]: None / Single / Ambiguous *)
@@ -27,96 +25,96 @@ Definition mlt_earliest {A} (m : mlt A) : option A :=
 Definition mlt_latest {A} (m : mlt A) : option A :=
   match m with MSingle a => Some a | MAmbiguous _ b => Some b | MNone => None end.
 
-Definition T_MIN : T.ntime := T.mk_time 0 0.
-Definition T_MAX : T.ntime := T.mk_time 86399 999999999.
-Definition NDT_MIN : ndt := mk_ndt D.D_MIN T_MIN.
-Definition NDT_MAX : ndt := mk_ndt D.D_MAX T_MAX.
+Definition T_MIN : Time.ntime := Time.mk_time 0 0.
+Definition T_MAX : Time.ntime := Time.mk_time 86399 999999999.
+Definition NDT_MIN : ndt := mk_ndt Date.D_MIN T_MIN.
+Definition NDT_MAX : ndt := mk_ndt Date.D_MAX T_MAX.
 
 (** derived [Ord]: lexicographic on (date.yof, time.secs, time.frac) *)
 Definition ndt_cmp (a b : ndt) : Z :=
-  cmp_lex [nd_date a; T.tsecs (nd_time a); T.tfrac (nd_time a)]
-          [nd_date b; T.tsecs (nd_time b); T.tfrac (nd_time b)].
+  cmp_lex [nd_date a; Time.tsecs (nd_time a); Time.tfrac (nd_time a)]
+          [nd_date b; Time.tsecs (nd_time b); Time.tfrac (nd_time b)].
 Definition ndt_le (a b : ndt) : bool := ndt_cmp a b <=? 0.
 
 (** * NaiveDateTime *)
 Definition ndt_checked_add_signed (a : ndt) (rhs : td) : R (option ndt) :=
-  let* '(time, remainder) := T.overflowing_add_signed (nd_time a) rhs in
+  let* '(time, remainder) := Time.overflowing_add_signed (nd_time a) rhs in
   match try_seconds remainder with
   | None => Val None
   | Some rem =>
-    let? date := D.checked_add_signed (nd_date a) rem in
+    let? date := Date.checked_add_signed (nd_date a) rem in
     Val (Some (mk_ndt date time))
   end.
 Definition ndt_checked_sub_signed (a : ndt) (rhs : td) : R (option ndt) :=
-  let* '(time, remainder) := T.overflowing_sub_signed (nd_time a) rhs in
+  let* '(time, remainder) := Time.overflowing_sub_signed (nd_time a) rhs in
   match try_seconds remainder with
   | None => Val None
   | Some rem =>
-    let? date := D.checked_sub_signed (nd_date a) rem in
+    let? date := Date.checked_sub_signed (nd_date a) rem in
     Val (Some (mk_ndt date time))
   end.
 
 Definition shift_date_checked (date days : Z) : R (option Z) :=
-  if days =? -1 then D.pred_opt date
-  else if days =? 1 then D.succ_opt date
+  if days =? -1 then Date.pred_opt date
+  else if days =? 1 then Date.succ_opt date
   else Val (Some date).
 Definition shift_date_overflowing (date days : Z) : R Z :=
-  if days =? -1 then let* o := D.pred_opt date in Val (match o with Some d => d | None => D.D_BEFORE_MIN end)
-  else if days =? 1 then let* o := D.succ_opt date in Val (match o with Some d => d | None => D.D_AFTER_MAX end)
+  if days =? -1 then let* o := Date.pred_opt date in Val (match o with Some d => d | None => Date.D_BEFORE_MIN end)
+  else if days =? 1 then let* o := Date.succ_opt date in Val (match o with Some d => d | None => Date.D_AFTER_MAX end)
   else Val date.
 
 Definition ndt_checked_add_offset (a : ndt) (off : Z) : R (option ndt) :=
-  let* '(time, days) := T.overflowing_add_offset (nd_time a) off in
+  let* '(time, days) := Time.overflowing_add_offset (nd_time a) off in
   let? date := shift_date_checked (nd_date a) days in Val (Some (mk_ndt date time)).
 Definition ndt_checked_sub_offset (a : ndt) (off : Z) : R (option ndt) :=
-  let* '(time, days) := T.overflowing_sub_offset (nd_time a) off in
+  let* '(time, days) := Time.overflowing_sub_offset (nd_time a) off in
   let? date := shift_date_checked (nd_date a) days in Val (Some (mk_ndt date time)).
 Definition ndt_overflowing_add_offset (a : ndt) (off : Z) : R ndt :=
-  let* '(time, days) := T.overflowing_add_offset (nd_time a) off in
+  let* '(time, days) := Time.overflowing_add_offset (nd_time a) off in
   let* date := shift_date_overflowing (nd_date a) days in Val (mk_ndt date time).
 Definition ndt_overflowing_sub_offset (a : ndt) (off : Z) : R ndt :=
-  let* '(time, days) := T.overflowing_sub_offset (nd_time a) off in
+  let* '(time, days) := Time.overflowing_sub_offset (nd_time a) off in
   let* date := shift_date_overflowing (nd_date a) days in Val (mk_ndt date time).
 
 Definition ndt_signed_duration_since (a b : ndt) : R td :=
-  let* dd := D.signed_duration_since (nd_date a) (nd_date b) in
-  let* dtm := T.signed_duration_since (nd_time a) (nd_time b) in
+  let* dd := Date.signed_duration_since (nd_date a) (nd_date b) in
+  let* dtm := Time.signed_duration_since (nd_time a) (nd_time b) in
   unwrap_r (td_checked_add dd dtm).
 
 Definition ndt_map_date (a : ndt) (r : R (option Z)) : R (option ndt) :=
   let? d := r in Val (Some (mk_ndt d (nd_time a))).
-Definition ndt_checked_add_months (a : ndt) (m : Z) := ndt_map_date a (D.checked_add_months (nd_date a) m).
-Definition ndt_checked_sub_months (a : ndt) (m : Z) := ndt_map_date a (D.checked_sub_months (nd_date a) m).
-Definition ndt_checked_add_days (a : ndt) (n : Z) := ndt_map_date a (D.checked_add_days (nd_date a) n).
-Definition ndt_checked_sub_days (a : ndt) (n : Z) := ndt_map_date a (D.checked_sub_days (nd_date a) n).
+Definition ndt_checked_add_months (a : ndt) (m : Z) := ndt_map_date a (Date.checked_add_months (nd_date a) m).
+Definition ndt_checked_sub_months (a : ndt) (m : Z) := ndt_map_date a (Date.checked_sub_months (nd_date a) m).
+Definition ndt_checked_add_days (a : ndt) (n : Z) := ndt_map_date a (Date.checked_add_days (nd_date a) n).
+Definition ndt_checked_sub_days (a : ndt) (n : Z) := ndt_map_date a (Date.checked_sub_days (nd_date a) n).
 
 (** Datelike / Timelike setters on NaiveDateTime; [field]: 0 year 1 month 2 month0 3 day 4 day0
     5 ordinal 6 ordinal0 7 hour 8 minute 9 second 10 nanosecond *)
-Definition ndt_map_time (a : ndt) (r : R (option T.ntime)) : R (option ndt) :=
+Definition ndt_map_time (a : ndt) (r : R (option Time.ntime)) : R (option ndt) :=
   let? t := r in Val (Some (mk_ndt (nd_date a) t)).
 Definition ndt_with (field : Z) (a : ndt) (x : Z) : R (option ndt) :=
   let d := nd_date a in let t := nd_time a in
-  if field =? 0 then ndt_map_date a (D.with_year d x)
-  else if field =? 1 then ndt_map_date a (D.with_month d x)
-  else if field =? 2 then ndt_map_date a (D.with_month0 d x)
-  else if field =? 3 then ndt_map_date a (D.with_day d x)
-  else if field =? 4 then ndt_map_date a (D.with_day0 d x)
-  else if field =? 5 then ndt_map_date a (D.with_ordinal d x)
-  else if field =? 6 then ndt_map_date a (D.with_ordinal0 d x)
-  else if field =? 7 then ndt_map_time a (T.with_hour t x)
-  else if field =? 8 then ndt_map_time a (T.with_minute t x)
-  else if field =? 9 then ndt_map_time a (T.with_second t x)
-  else if field =? 10 then ndt_map_time a (Val (T.with_nanosecond t x))
+  if field =? 0 then ndt_map_date a (Date.with_year d x)
+  else if field =? 1 then ndt_map_date a (Date.with_month d x)
+  else if field =? 2 then ndt_map_date a (Date.with_month0 d x)
+  else if field =? 3 then ndt_map_date a (Date.with_day d x)
+  else if field =? 4 then ndt_map_date a (Date.with_day0 d x)
+  else if field =? 5 then ndt_map_date a (Date.with_ordinal d x)
+  else if field =? 6 then ndt_map_date a (Date.with_ordinal0 d x)
+  else if field =? 7 then ndt_map_time a (Time.with_hour t x)
+  else if field =? 8 then ndt_map_time a (Time.with_minute t x)
+  else if field =? 9 then ndt_map_time a (Time.with_second t x)
+  else if field =? 10 then ndt_map_time a (Val (Time.with_nanosecond t x))
   else Panic.
 
 (** * DateTime<Utc> timestamps (src/datetime/mod.rs) *)
 Definition dt_timestamp (a : ndt) : R Z :=
-  let* gd := D.num_days_from_ce (nd_date a) in
-  let sfm := T.num_seconds_from_midnight (nd_time a) in
+  let* gd := Date.num_days_from_ce (nd_date a) in
+  let sfm := Time.num_seconds_from_midnight (nd_time a) in
   let* d := sub_i64 gd UNIX_EPOCH_DAY in
   let* s := mul_i64 d 86400 in
   add_i64 s sfm.
-Definition dt_subsec_nanos (a : ndt) : Z := T.nanosecond (nd_time a).
+Definition dt_subsec_nanos (a : ndt) : Z := Time.nanosecond (nd_time a).
 Definition dt_subsec_millis (a : ndt) : Z := Z.quot (dt_subsec_nanos a) 1000000.
 Definition dt_subsec_micros (a : ndt) : Z := Z.quot (dt_subsec_nanos a) 1000.
 Definition dt_timestamp_millis (a : ndt) : R Z :=
@@ -140,8 +138,8 @@ Definition dt_from_timestamp (secs nsecs : Z) : R (option ndt) :=
   let* days := add_i64 q UNIX_EPOCH_DAY in
   let* secs := rem_euclid in_i64 secs DT_SECS_PER_DAY in
   if (days <? i32_min) || (i32_max <? days) then Val None else
-  let? date := D.from_num_days_from_ce_opt (as_i32 days) in
-  match T.from_num_seconds_from_midnight_opt (as_u32 secs) nsecs with
+  let? date := Date.from_num_days_from_ce_opt (as_i32 days) in
+  match Time.from_num_seconds_from_midnight_opt (as_u32 secs) nsecs with
   | None => Val None
   | Some time => Val (Some (mk_ndt date time))
   end.
@@ -215,19 +213,19 @@ Definition map_local (a : dtz) (f : ndt -> R (option ndt)) : R (option dtz) :=
   Val (match mlt_single r with Some x => if in_utc_range x then Some x else None | None => None end).
 Definition dz_with (field : Z) (a : dtz) (x : Z) : R (option dtz) :=
   if field =? 0 then
-    map_local a (fun l => if D.d_year (nd_date l) =? x then Val (Some l) else ndt_with 0 l x)
+    map_local a (fun l => if Date.d_year (nd_date l) =? x then Val (Some l) else ndt_with 0 l x)
   else map_local a (fun l => ndt_with field l x).
-Definition dz_with_time (a : dtz) (t : T.ntime) : R (mlt dtz) :=
+Definition dz_with_time (a : dtz) (t : Time.ntime) : R (mlt dtz) :=
   let* l := overflowing_naive_local a in
   from_local_datetime (dz_off a) (mk_ndt (nd_date l) t).
 
 (** [with_ymd_and_hms] for a fixed offset *)
 Definition with_ymd_and_hms (off year month day hour min sec : Z) : R (mlt dtz) :=
-  let* od := D.from_ymd_opt year month day in
+  let* od := Date.from_ymd_opt year month day in
   match od with
   | None => Val MNone
   | Some d =>
-    let* ot := T.from_hms_opt hour min sec in
+    let* ot := Time.from_hms_opt hour min sec in
     match ot with
     | None => Val MNone
     | Some t => from_local_datetime off (mk_ndt d t)
@@ -235,26 +233,26 @@ Definition with_ymd_and_hms (off year month day hour min sec : Z) : R (mlt dtz) 
   end.
 
 (** * Canonical encodings of the case protocol (harness/src/val.rs) *)
-Definition enc_date (d : Z) : val := VTup [VInt (D.d_year d); VInt (D.d_ordinal d)].
+Definition enc_date (d : Z) : val := VTup [VInt (Date.d_year d); VInt (Date.d_ordinal d)].
 Definition dec_date (v : val) : option Z :=
   match v with
   | VTup [VInt y; VInt o] =>
-      if in_i32 y && in_u32 o then match D.from_yo_opt y o with Val (Some d) => Some d | _ => None end else None
+      if in_i32 y && in_u32 o then match Date.from_yo_opt y o with Val (Some d) => Some d | _ => None end else None
   | _ => None
   end.
 Definition enc_ndt (a : ndt) : val :=
-  VTup [VInt (D.d_year (nd_date a)); VInt (D.d_ordinal (nd_date a)); VInt (T.tsecs (nd_time a)); VInt (T.tfrac (nd_time a))].
+  VTup [VInt (Date.d_year (nd_date a)); VInt (Date.d_ordinal (nd_date a)); VInt (Time.tsecs (nd_time a)); VInt (Time.tfrac (nd_time a))].
 Definition dec_ndt (v : val) : option ndt :=
   match v with
   | VTup [y; o; s; f] =>
-      match dec_date (VTup [y; o]), T.dec_time (VTup [s; f]) with
+      match dec_date (VTup [y; o]), Time.dec_time (VTup [s; f]) with
       | Some d, Some t => Some (mk_ndt d t) | _, _ => None end
   | _ => None
   end.
 Definition enc_dtz (a : dtz) : val :=
   let u := dz_utc a in
-  VTup [VInt (D.d_year (nd_date u)); VInt (D.d_ordinal (nd_date u)); VInt (T.tsecs (nd_time u));
-        VInt (T.tfrac (nd_time u)); VInt (dz_off a)].
+  VTup [VInt (Date.d_year (nd_date u)); VInt (Date.d_ordinal (nd_date u)); VInt (Time.tsecs (nd_time u));
+        VInt (Time.tfrac (nd_time u)); VInt (dz_off a)].
 Definition dec_dtz (v : val) : option dtz :=
   match v with
   | VTup [y; o; s; f; VInt off] =>
